@@ -46,11 +46,12 @@ const (
 
 func init() {
 	register(&PropDef{
-		ID:   "C06",
-		Rule: "scenario = (route table of 0-6 routes, each a conjunction of name / type-list / IQ-namespace-list matchers or none, catch-all at any position) x (1-12 inbound packets: messages with and without type, presences, IQs of each type with registered / unknown / no payload, non-stanza packets) x (client or component, segmentation, handler slowness); non-trivial = at least one packet was received; distinct = distinct (scenario hash, schedule hash)",
-		Real: []string{"xmpp.Router (route, Match, matchers, iqNotImplemented)", "IQ.MakeError", "recv loops and per-packet route goroutines", "Send path of the automatic reply"},
-		Stub: []string{"TCP (simnet)", "XMPP server (scripted model; replies observed through the independent splitter)", "clock (synctest)", "goroutine scheduling (token scheduler)"},
-		Run:  runC06,
+		ID:    "C06",
+		Rule:  "scenario = (route table of 0-6 routes, each a conjunction of name / type-list / IQ-namespace-list matchers or none, catch-all at any position) x (1-12 inbound packets: messages with and without type, presences, IQs of each type with registered / unknown / no payload, non-stanza packets) x (client or component, segmentation, handler slowness); non-trivial = at least one packet was received; distinct = distinct (scenario hash, schedule hash)",
+		Real:  []string{"xmpp.Router (route, Match, matchers, iqNotImplemented)", "IQ.MakeError", "recv loops and per-packet route goroutines", "Send path of the automatic reply"},
+		Stub:  []string{"TCP (simnet)", "XMPP server (scripted model; replies observed through the independent splitter)", "clock (synctest)", "goroutine scheduling (token scheduler)"},
+		Run:   runC06,
+		Reach: []string{"c06.ends_with_stream_error"},
 	})
 }
 
